@@ -13,7 +13,7 @@ PROVED = {
     'C04': 'Full statement proved (C04_prophyc_layout: prophyc size / alignment / kind = documented layout for every accepted schema; C04_paddings_give_canonical_length; Python statics).',
     'C05': 'Full statement proved (C05_byte_size_is_canonical_length: get_byte_size = canonical length = bytes written; never a write beyond it) under front, noShift, not optMisaligned.',
     'C06': 'Full statement proved, all clauses (C06_py_decode_total, C06_py_counts_bounded, C06_py_decoded_typed, C06_py_decoded_encodes, C06_py_fixpoint under galTy).',
-    'C07': 'Full statement proved for EVERY schema tree and byte string (C07_decode_no_fault, C07_decTy_safe, C07_resizes_bounded).',
+    'C07': 'Full statement proved for EVERY schema tree and byte string (C07_decode_no_fault, C07_decTy_safe, C07_resizes_bounded, C07_resizes_fit: every resize request times the fixed wire size of the element fits the input).',
     'C08': 'Full statement proved (C08_offsets_are_wire_offsets, C08_part_alignments, C08_sizeof_fixed, C08_union_layout).',
     'C09': 'Full statement proved (C09_swap_whole_message, C09_swap_in_place, C09_swap_unlimited_prefix) under partsOk (excludes finding D23 and non-compilable names).',
     'C10': 'State validity proved for every history (C10_reachable_typed, C10_step_typed, C10_default_typed, C10_reachable_encodes).',
